@@ -434,19 +434,10 @@ func ReadLimitBody(req *protocol.Request, r network.Reader, maxBodySize int, get
 func writeBodyStream(req *protocol.Request, w network.Writer) error {
 	var err error
 
+	// A stream of unknown length is sent chunked, also when it is an *io.LimitedReader: its N only bounds the
+	// stream from above ("at most N bytes"), so announcing N as Content-Length breaks the framing of every
+	// stream that ends before the limit (same as in resp.writeBodyStream).
 	contentLength := req.Header.ContentLength()
-	if contentLength < 0 {
-		lrSize := ext.LimitedReaderSize(req.BodyStream())
-		if lrSize >= 0 {
-			contentLength = int(lrSize)
-			if int64(contentLength) != lrSize {
-				contentLength = -1
-			}
-			if contentLength >= 0 {
-				req.Header.SetContentLength(contentLength)
-			}
-		}
-	}
 	if contentLength >= 0 {
 		if err = WriteHeader(&req.Header, w); err == nil {
 			err = ext.WriteBodyFixedSize(w, req.BodyStream(), int64(contentLength))
